@@ -199,10 +199,18 @@ func debugTraceback(L *LState) int {
 	// traceback ([thread,] [message] [, level]); another thread is shown from its level 0
 	ls, arg := getThread(L)
 	msg := ""
-	if s, ok := L.Get(arg + 1).(LString); ok {
-		msg = string(s)
-	} else if n, ok := L.Get(arg + 1).(LNumber); ok {
-		msg = n.String()
+	if L.GetTop() > arg {
+		switch v := L.Get(arg + 1).(type) {
+		case LString:
+			msg = string(v)
+		case LNumber:
+			msg = v.String()
+		default:
+			// a message that is not a string is returned untouched (ldblib.c db_errorfb): with
+			// xpcall(f, debug.traceback) an error object reaches the caller as it was raised
+			L.Push(v)
+			return 1
+		}
 	}
 	deflevel := 1
 	if ls != L {
